@@ -130,15 +130,17 @@ func NewEmitter(path string) *Emitter {
 	}
 	return &Emitter{w: bufio.NewWriterSize(f, 1<<20), f: f, Stats: map[string]int{}}
 }
-func (e *Emitter) Op(op string, impl string) {
+// Op writes "<tags>\t<op>\t<impl>"; tags = comma-separated property ids whose check compares
+// this line ("*" = every check; "-" = fed to the model, answer not compared).
+func (e *Emitter) Op(tags, op, impl string) {
 	if strings.ContainsAny(op, "\t\n") || strings.ContainsAny(impl, "\t\n") {
 		panic("bad char in line: " + op)
 	}
-	fmt.Fprintf(e.w, "%s\t%s\n", op, impl)
+	fmt.Fprintf(e.w, "%s\t%s\t%s\n", tags, op, impl)
 	e.Lines++
 }
 func (e *Emitter) Reset(label string) {
-	e.Op("R "+label, "ok")
+	e.Op("-", "R "+label, "ok")
 	e.Cases++
 }
 func (e *Emitter) Count(k string) { e.Stats[k]++ }
